@@ -15,8 +15,14 @@ Part "tb": generated modules (3 shapes: module-level raise, nested call, tabs +
     from a scratch directory, the exception is rendered through Traceback and, per
     frame, the line carrying the marker is compared with the generated source.
 
-Measured on the unchanged tree (16 workers): quick 392 k evaluations in ~25 s,
-thorough 5.5 M evaluations in ~6 min.
+Finding keys are chosen by diagnosis of the failing rendering (is it the rendering of
+the source without its leading blank lines? does the stray line vanish without indent
+guides?), never by the input alone, so one defect keeps one key.
+
+Measured on the unchanged tree: quick 382,020 evaluations, 393 distinct outcomes,
+270 CPU-s (~20 s wall on 16 idle cores; 188 s were measured at load average 98);
+thorough 4,489,836 evaluations, 1,085 distinct outcomes, 3,320 CPU-s (~4 min on 16
+idle cores; 48 min were measured at load average 130).
 """
 import io
 import itertools
@@ -33,7 +39,7 @@ from ..width import sw
 ID = "C17"
 LEVEL = "exploration"
 ENGINE = "E1"
-CAP_S = {"quick": 240, "thorough": 1500}
+CAP_S = {"quick": 240, "thorough": 1800}
 TECHNIQUE = ("bounded-exhaustive enumeration of sources x lexers x line ranges x option deviations on the real "
              "Syntax/Traceback renderers, judged by splitting the rendered characters into gutter and code and "
              "comparing them with the source lines")
